@@ -149,12 +149,15 @@ def gen_stack_cases(rng, tier):
             E.frame(b"y" * 2000),
             mutate(rng, E.frame(b"abc") * 4),
         ])
-        cases.append(["rawpeer %s %s %s" % (E.cfg_str(c), E.hexspec(hs + E.frame(b"first") + tail), rng.choice(["-", "64", "70,5"]))])
+        cases.append(["hostile %s %s %s" % (E.cfg_str(c), E.hexspec(hs + E.frame(b"first") + tail), rng.choice(["-", "64", "70,5"]))])
+    for i in range(4 if tier == "quick" else 40):
+        junk = bytes(rng.randrange(256) for _ in range(rng.randrange(1, 200)))
+        cases.append(["hostile role=s,type=PULL %s %s" % (E.hexspec(junk), rng.choice(["-", "1", "3,9"]))])
     return cases
 
 
 def nontrivial(case, impl):
-    return any("E(" in l or "err" in l or "D(" in l or "closed=" in l or "recv=" in l for l in impl)
+    return any("E(" in l or "err" in l or "D(" in l or "closed=" in l or "survived=" in l for l in impl)
 
 
 SPEC = {
